@@ -186,6 +186,12 @@ def spec(case, mos, io):
                     fails.append("mode %s/%s: the text of the violation of an explicitly enabled contract differs from the normal "
                                  "interpreter's: %s vs %s" % (case["mode"], case["env"], io["broken"][flavour], io["normal"][flavour]))
                 continue
+            if flavour == "slow_env":
+                want = {"unevaluated-comprehension-part": "violation", "assignment-with-default-check_on": "accepted", "call-after-assignment": "violation"}
+                if res != want:
+                    fails.append("mode %s/%s: explicitly enabled contracts must not depend on ICONTRACT_SLOW or the interpreter mode: %s, expected %s"
+                                 % (case["mode"], case["env"], res, want))
+                continue
             if flavour == "refusals":
                 if res != io["normal"][flavour][0] or any(v != "ValueError" for v in res.values()):
                     fails.append("mode %s/%s: explicitly enabled contracts whose sync condition / capture hands back a coroutine must be "
